@@ -276,7 +276,7 @@ func (a *TCPAllocation) BindConnection(dataConn *TCPConn, cid proto.ConnectionID
 		return errInvalidTURNFrame
 	}
 
-	datagramSize := binary.BigEndian.Uint16(b[2:4]) + stunHeaderSize
+	datagramSize := int(binary.BigEndian.Uint16(b[2:4])) + stunHeaderSize
 	raw := make([]byte, datagramSize)
 	copy(raw, b)
 	_, err = io.ReadFull(dataConn, raw[stunHeaderSize:])
